@@ -10,7 +10,10 @@
 (*    shares memory with the parent's value (C03 mirror aliasing); every node is       *)
 (*    pulled back exactly once in reverse order (C03); afterwards the in-place writes  *)
 (*    are redone in recording order and every forward value is what it was before the  *)
-(*    sweep (C06).                                                                     *)
+(*    sweep (C06);                                                                     *)
+(*  - time consistency: when node k is pulled back, the forward values of its operands  *)
+(*    are those it read and produced when it was last evaluated (C03/C06: the restore   *)
+(*    protocol for in-place writes).                                                    *)
 (* One TLC run validates a whole batch: tid is chosen in Init, accepted trace ids are   *)
 (* collected in TLCSet(1, ..), the postcondition lists the rejected ones.               *)
 EXTENDS Integers, Sequences, FiniteSets, TLC, Json, IOUtils
@@ -33,7 +36,7 @@ Idle == mode = <<"idle">>
 Init == /\ tid \in 1..NT /\ l = 1 /\ cur = 0 /\ graphs = <<>> /\ nodes = <<>> /\ mode = <<"idle">>
 
 NewGraph == /\ IsEvent("NewGraph") /\ Ev.g = Len(graphs) + 1
-            /\ graphs' = Append(graphs, [n |-> 0, dig |-> <<>>]) /\ cur' = Ev.g
+            /\ graphs' = Append(graphs, [n |-> 0, dig |-> <<>>, ad |-> <<>>]) /\ cur' = Ev.g
             /\ UNCHANGED <<nodes, mode>>
 TraceOn  == IsEvent("TraceOn") /\ Ev.g \in 1..Len(graphs) /\ cur' = Ev.g /\ UNCHANGED <<graphs, nodes, mode>>
 TraceOff == IsEvent("TraceOff") /\ Ev.g \in 1..Len(graphs) /\ cur' = 0 /\ UNCHANGED <<graphs, nodes, mode>>
@@ -45,7 +48,7 @@ Create ==
   /\ IF cur # 0
      THEN /\ Ev.g = cur /\ Ev.before = graphs[cur].n /\ Ev.id = Ev.before /\ Ev.pos = Ev.before /\ Ev.cnt = Ev.before + 1
           /\ \A i \in 1..Len(Ev.args) : nodes[Ev.args[i]].g = cur => nodes[Ev.args[i]].pos < Ev.pos
-          /\ graphs' = [graphs EXCEPT ![cur].n = @ + 1]
+          /\ graphs' = [graphs EXCEPT ![cur].n = @ + 1, ![cur].ad = Append(@, Ev.ad)]
           /\ nodes' = Append(nodes, [g |-> cur, pos |-> Ev.pos])
      ELSE /\ Ev.g = 0 /\ Ev.id = -1 /\ Ev.pos = -1
           /\ graphs' = graphs /\ nodes' = Append(nodes, [g |-> 0, pos |-> -1])
@@ -54,7 +57,8 @@ Create ==
 FwdBegin == /\ IsEvent("FwdBegin") /\ Idle /\ Ev.g \in 1..Len(graphs) /\ Ev.n = graphs[Ev.g].n
             /\ mode' = <<"fwd", Ev.g, 0>> /\ UNCHANGED <<cur, graphs, nodes>>
 FwdNode  == /\ IsEvent("FwdNode") /\ mode[1] = "fwd" /\ Ev.g = mode[2] /\ Ev.k = mode[3]
-            /\ mode' = <<"fwd", mode[2], mode[3] + 1>> /\ UNCHANGED <<cur, graphs, nodes>>
+            /\ graphs' = [graphs EXCEPT ![Ev.g].ad[Ev.k + 1] = Ev.ad]
+            /\ mode' = <<"fwd", mode[2], mode[3] + 1>> /\ UNCHANGED <<cur, nodes>>
 FwdEnd   == /\ IsEvent("FwdEnd") /\ mode[1] = "fwd" /\ Ev.g = mode[2]
             /\ Ev.ok => mode[3] = graphs[Ev.g].n
             /\ graphs' = [graphs EXCEPT ![Ev.g].dig = Ev.dig]
@@ -72,6 +76,7 @@ BarInit == /\ IsEvent("BarInit") /\ mode[1] = "pb" /\ mode[3] = "init" /\ Ev.g =
                       ELSE <<"pb", mode[2], "init", Ev.k + 1, mode[5], mode[6]>>
            /\ UNCHANGED <<cur, graphs, nodes>>
 PbNode  == /\ IsEvent("PbNode") /\ mode[1] = "pb" /\ mode[3] = "sweep" /\ Ev.g = mode[2] /\ Ev.k = mode[4]
+           /\ Ev.ad = graphs[Ev.g].ad[Ev.k + 1]            \* time consistency
            /\ mode' = IF Ev.k = 0 THEN <<"pb", mode[2], "redo", 0, mode[5], mode[6]>>
                       ELSE <<"pb", mode[2], "sweep", Ev.k - 1, mode[5], mode[6]>>
            /\ UNCHANGED <<cur, graphs, nodes>>
